@@ -219,6 +219,62 @@ Section Skel.
     | None => spec_default_style
     end.
 
+  (* dynamic syntax: which oracle question a token asks (token fields only) *)
+  Inductive dynk := DStatic | DKey (key : list str) | DUnsupported.
+
+  Definition info_name (t : tok) : str :=
+    match o_split OR (o_strip OR (info t)) with w :: _ => w | [] => [] end.
+  Definition info_arguments (t : tok) : str :=
+    match o_split1 OR (o_strip OR (info t)) with _ :: a :: _ => a | _ => [] end.
+  Definition braced (s : str) : bool := starts_brace s && ends_brace s.
+
+  Definition dyn_key (t : tok) : dynk :=
+    match kind_of (ty t) with
+    | KFence =>
+        match c_mode C with
+        | Myst => if str_eqb (info_name t) v_eval_rst then DUnsupported
+                  else if braced (info_name t)
+                       then DKey [v_directive; strip_braces (info_name t); info_arguments t; content t]
+                       else DStatic
+        | _ => DStatic
+        end
+    | KColonFence =>
+        if braced (info_name t)
+        then DKey [v_directive; strip_braces (info_name t); info_arguments t;
+                   if startswith (content t) v_colons then 10 :: content t else content t]
+        else DUnsupported
+    | KMystRole =>
+        match assoc a_name (meta t) with
+        | Some name => DKey [v_role; name; content t]
+        | None => DUnsupported
+        end
+    | KSubstInline => DKey [v_substitution; v_true; content t]
+    | KSubstBlock => DKey [v_substitution; v_false; content t]
+    | KFrontMatter => DKey [k_front_matter; content t]
+    | _ => DStatic
+    end.
+
+  (* the image of a dynamic token is the image of what its run returns *)
+  Definition dyn_skel (t : tok) (static_image : list skel) : list skel :=
+    match dyn_key t with
+    | DStatic => static_image
+    | DKey key => match o_dyn OR (dyn_full_key B key) with
+                  | Some (ns, _) => skel_nodes ns
+                  | None => [SUnknown (ty t)]
+                  end
+    | DUnsupported => [SUnknown (ty t)]
+    end.
+
+  Definition dyn_static (t : tok) : bool :=
+    match dyn_key t with
+    | DStatic => true
+    | DKey key => match o_dyn OR (dyn_full_key B key) with
+                  | Some (ns, _) => forallb dyn_node_ok ns
+                  | None => false
+                  end
+    | DUnsupported => false
+    end.
+
   Fixpoint skel_tok (t : tok) : list skel :=
     match t with
     | Tok ty _ _ _ _ _ _ _ cs =>
@@ -237,7 +293,7 @@ Section Skel.
                 end
         | KCodeInline => [SLiteral (content t)]
         | KCodeBlock => [SCode (lang_carried t (code_block_lexer t)) (strip1nl (content t))]
-        | KFence => [SCode (lang_carried t (Some (fence_name t))) (strip1nl (content t))]
+        | KFence => dyn_skel t [SCode (lang_carried t (Some (fence_name t))) (strip1nl (content t))]
         | KBlockquote => [SBox CQuote kids]
         | KBulletList => [SBox (CBullet (if is_empty (markup t) then None else Some (markup t))) kids]
         | KOrderedList => [SBox (CEnum (enum_style t) (attr_get t a_start) (markup t)) kids]
@@ -270,6 +326,7 @@ Section Skel.
         | KFieldlistName => [SBox CFieldName kids]
         | KFieldlistBody => [SBox CFieldBody kids]
         | KSpan => [SBox CSpan kids]
+        | KColonFence | KMystRole | KSubstInline | KSubstBlock | KFrontMatter => dyn_skel t [SUnknown ty]
         | KOther => [SUnknown ty]
         end
     end.
@@ -328,10 +385,11 @@ Section Skel.
            | KFieldList => field_static cs
            | _ => true
            end
-        && match kind_of ty with
-           | KImage => true                 (* the children of an image only contribute its alt text *)
-           | _ => forallb static_tok cs
-           end
+        && (dyn_static t
+            && match kind_of ty with
+               | KImage => true                 (* the children of an image only contribute its alt text *)
+               | _ => forallb static_tok cs
+               end)
     end.
 
   Definition static (ts : list tok) : bool := forallb static_tok ts.
